@@ -841,7 +841,7 @@ func checkC15(c *runCtx) {
 		"the end of a stream is reported to the reader as an error carrying the peer address; it is not counted as a packet")
 	p := newVTPool()
 	defer p.close()
-	dl := c01deadline(c, 240, 1500)
+	dl := c01deadline(c, 400, 1500)
 	depth := 6
 	if !c.quick() {
 		depth = 7
